@@ -352,11 +352,15 @@ class _InitGiven:
 
     def _transforming(self, value, depth=0):
         """name of a transforming routine applied to a family value inside `value`, or None"""
+        fam = set(self.fam)
+        for g_ in ast.walk(value):
+            if isinstance(g_, ast.comprehension) and any(isinstance(n, ast.Name) and n.id in fam for n in ast.walk(g_.iter)):
+                fam |= {n.id for n in ast.walk(g_.target) if isinstance(n, ast.Name)}  # [h(f) for f in factors]
         for c in ast.walk(value):
             if not isinstance(c, ast.Call):
                 continue
             nm = call_name(c) or ""
-            touches = any(isinstance(n, ast.Name) and n.id in self.fam for a in list(c.args) + [k.value for k in c.keywords] for n in ast.walk(a))
+            touches = any(isinstance(n, ast.Name) and n.id in fam for a in list(c.args) + [k.value for k in c.keywords] for n in ast.walk(a))
             if not touches:
                 continue
             if nm in TRANSFORMERS:
